@@ -72,6 +72,14 @@ def add_macros(p: Program) -> None:
             and 0 <= j and j < len(s.employees[k].submit_cache),
             s.employees[k].submit_cache[j][1] > 0), 'int', 'int')
     )''')
+    # bounded-only (plain Python): every task of `ts` is in exactly one
+    # SUBMIT_BATCH among the effects lo .. hi-1
+    p.macro('sent_once', ['ts', 'lo', 'hi'], '''all(
+        sum(1 for i in range(lo, hi)
+            if eff_kind(i, 'outgoing.put')
+            and eff_b(i, 'Any') == RuntimeMessage.SUBMIT_BATCH
+            for x in eff_c(i, 'Any') if x is t) == 1
+        for t in ts)''')
     p.macro('emp_index', ['s', 'w'],
             '(w - s.lower_id_bound) // s.step_size')
     p.macro('is_mine', ['s', 'w'], '''(
